@@ -1,14 +1,19 @@
 """C03 — plugin output faithfully implements the schema (translation validity)."""
-AREAS = ["names"]
+AREAS = ["pluginfield", "names"]
 LEVEL = "other"
 EXPLANATION = (
-    "Under contract: only the name mapping used for fields / methods / classes (valid non-keyword identifiers). The "
-    "translation itself (descriptor traversal, FieldCompiler, Jinja templates, formatting) manipulates a large object "
-    "graph through dataclasses, properties and templates and is outside the proved subset; it is decided by the bounded "
+    "Under contract: (a) the per-field translation - is_map, is_oneof and the FieldCompiler / OneOfFieldCompiler / "
+    "MapEntryCompiler properties (optional, repeated, packed, field_type, py_type, field_wraps, annotation, "
+    "betterproto_field_args, get_field_string) over a SYMBOLIC FieldDescriptorProto (every type number, label, "
+    "proto3_optional, any names and numbers) against spec/plugin.py: the generated declaration text carries the schema's "
+    "number, kind, wrapped scalar, proto3 presence and oneof group; (b) the name mapping (valid non-keyword identifiers). "
+    "The rest of the translation (descriptor traversal in the parser, message / enum / service compilers, Jinja "
+    "templates, import collection, formatting) manipulates a large object graph and is outside the proved subset; the "
+    "property as a whole is decided by the bounded "
     "end-to-end stand-in: schemas from a grammar-based generator are compiled with the REAL plugin, imported, and every "
     "class / field / enum member is compared with the schema; plus the complete comparison of the bundled descriptor / "
     "plugin classes with google.protobuf's descriptors (exhaustive, finite).")
-ASSUMED = ["A-RUFF", "the translation is not proved: bounded translation validation on generated schemas"]
+ASSUMED = ["A-RUFF", "only the per-field translation is proved; descriptor traversal, message/enum/service compilers and templates: bounded translation validation on generated schemas"]
 from pyvc.check import external_bounded
 BOUNDED = [external_bounded("plugin-end-to-end:C03", "standin_plugin.run", ["C03", "--n", "6"], ["C03", "--n", "40"],
                             "real plugin on schemas from a grammar-based generator + complete comparison of bundled descriptor classes")]
